@@ -435,3 +435,72 @@ def _select(cond, a, b):
         if r == ("const", 0) and b == l and a == norm(("neg", l)):
             return ("abs", l)
     return None
+
+
+# ---------------------------------------------------------------------------------------------------
+# BITS: upper bound on the bit width of integer expressions in straight-line code (non-negative values)
+
+
+def bit_widths(fn, param_bits, folder):
+    """Walk the straight-line body of `fn`; returns (env: name -> max bits, issues, return widths).
+    issues: right shifts whose operand may exceed the word."""
+    import ast as _ast
+    env = dict(param_bits)
+    shifts = []  # (node, operand width)
+    rets = []
+
+    def w(e):
+        c = folder.fold(e)
+        if isinstance(c, int) and c >= 0:
+            return c.bit_length()
+        if isinstance(e, _ast.Name):
+            return env.get(e.id, None)
+        if isinstance(e, _ast.BinOp):
+            a, b = w(e.left), w(e.right)
+            if isinstance(e.op, _ast.BitAnd):
+                cands = [x for x in (a, b) if x is not None]
+                return min(cands) if cands else None
+            if a is None:
+                return None
+            if isinstance(e.op, _ast.LShift):
+                s = folder.fold(e.right)
+                return a + s if isinstance(s, int) else None
+            if isinstance(e.op, _ast.RShift):
+                s = folder.fold(e.right)
+                shifts.append((e, a))
+                return max(a - s, 0) if isinstance(s, int) else a
+            if b is None:
+                return None
+            if isinstance(e.op, (_ast.BitOr, _ast.BitXor)):
+                return max(a, b)
+            if isinstance(e.op, _ast.Add):
+                return max(a, b) + 1
+            if isinstance(e.op, _ast.Mult):
+                return a + b
+            return None
+        if isinstance(e, _ast.Subscript):
+            return 8  # a byte of a bytes object
+        return None
+
+    def run(stmts):
+        for st in stmts:
+            if isinstance(st, _ast.Assign) and len(st.targets) == 1:
+                t = st.targets[0]
+                if isinstance(t, _ast.Name):
+                    env[t.id] = w(st.value)
+                elif isinstance(t, _ast.Tuple) and isinstance(st.value, _ast.Name):
+                    for x in t.elts:
+                        if isinstance(x, _ast.Name):
+                            env[x.id] = param_bits.get(st.value.id)
+            elif isinstance(st, _ast.AugAssign) and isinstance(st.target, _ast.Name):
+                env[st.target.id] = w(_ast.BinOp(left=_ast.Name(id=st.target.id, ctx=_ast.Load()), op=st.op, right=st.value))
+            elif isinstance(st, _ast.Return) and st.value is not None:
+                if isinstance(st.value, _ast.Tuple):
+                    rets.extend((x, w(x)) for x in st.value.elts)
+                else:
+                    rets.append((st.value, w(st.value)))
+            elif isinstance(st, (_ast.If, _ast.For, _ast.While)):
+                run(st.body)
+                run(getattr(st, "orelse", []))
+    run(fn.body)
+    return env, shifts, rets
